@@ -316,3 +316,47 @@ func joinStrings(xs []string, sep string) string {
 	}
 	return out
 }
+
+// callInView: the call expression of a view that stands for a call of the source: the node itself when the view kept it,
+// else the call that closes at the same parenthesis (views re-create the statements they show in another spelling).
+func callInView(f *core.Func, call *ast.CallExpr) *ast.CallExpr {
+	if f == nil || f.Body == nil || call == nil {
+		return call
+	}
+	var same, byPos *ast.CallExpr
+	ast.Inspect(f.Body, func(n ast.Node) bool {
+		c, ok := n.(*ast.CallExpr)
+		if !ok {
+			return true
+		}
+		if c == call {
+			same = c
+		}
+		if c.Rparen == call.Rparen && c.Rparen.IsValid() && byPos == nil {
+			byPos = c
+		}
+		return same == nil
+	})
+	if same != nil {
+		return same
+	}
+	if byPos != nil {
+		return byPos
+	}
+	return call
+}
+
+// sameFunc: two handles of one function body: identical, or a view and what it was made from.
+func sameFunc(a, b *core.Func) bool {
+	if a == nil || b == nil {
+		return a == b
+	}
+	oa, ob := a, b
+	if a.Origin != nil {
+		oa = a.Origin
+	}
+	if b.Origin != nil {
+		ob = b.Origin
+	}
+	return oa == ob
+}
